@@ -190,6 +190,114 @@ func VerifC20Op(op, kind, k int, s0, s1, s2 int, ctl int, block int, stale int) 
 	return 0
 }
 
+// VerifC20Seq: a handle is used twice - Copy into dst, then Remove (second 0), Move into dst2 (1) or Copy into dst2
+// (2).  After the first step the handle stands for the copy in dst: the second step acts on that copy and leaves the
+// original upload in src alone.
+func VerifC20Seq(kind, k, second int) int {
+	root, err := os.MkdirTemp("", "verifc20")
+	if err != nil {
+		return 90
+	}
+	defer os.RemoveAll(root)
+	src, dst, dst2 := root+"/src", root+"/dst", root+"/dst2"
+	if os.MkdirAll(src, 0755) != nil || os.MkdirAll(dst, 0755) != nil || os.MkdirAll(dst2, 0755) != nil {
+		return 91
+	}
+	names := []string{"f0.tar", "f1.tar", "f2.tar"}[:k]
+	ctlName := "p.dsc"
+	if kind == 1 {
+		ctlName = "p.changes"
+	}
+	for _, n := range names {
+		if !verifPut(src+"/"+n, verifOK, "content-"+n) {
+			return 92
+		}
+	}
+	if !verifPut(src+"/"+ctlName, verifOK, "control-file") {
+		return 92
+	}
+	var h verifUpload
+	var filename *string
+	if kind == 0 {
+		d := &DSC{Filename: src + "/" + ctlName}
+		for _, n := range names {
+			d.Files = append(d.Files, MD5FileHash{FileHash{Algorithm: "md5", Hash: "00", Size: int64(len("content-" + n)), Filename: n}})
+		}
+		h, filename = d, &d.Filename
+	} else {
+		c := &Changes{Filename: src + "/" + ctlName}
+		for _, n := range names {
+			c.Files = append(c.Files, FileListChangesFileHash{FileHash: FileHash{Algorithm: "md5", Hash: "00", Size: int64(len("content-" + n)), Filename: n}})
+		}
+		h, filename = c, &c.Filename
+	}
+	if h.Copy(dst) != nil {
+		return 1
+	}
+	if *filename != dst+"/"+ctlName {
+		return 2
+	}
+	all := append([]string{ctlName}, names...)
+	content := func(n string) string {
+		if n == ctlName {
+			return "control-file"
+		}
+		return "content-" + n
+	}
+	has := func(dir string) bool {
+		for _, n := range all {
+			if !verifIsFile(dir+"/"+n, content(n)) {
+				return false
+			}
+		}
+		return true
+	}
+	none := func(dir string) bool {
+		for _, n := range all {
+			if verifExists(dir + "/" + n) {
+				return false
+			}
+		}
+		return true
+	}
+	switch second {
+	case 0:
+		if h.Remove() != nil {
+			return 3
+		}
+		if !has(src) {
+			return 4 // the original upload was touched
+		}
+		if !none(dst) {
+			return 5
+		}
+	case 1:
+		if h.Move(dst2) != nil {
+			return 6
+		}
+		if !has(src) {
+			return 7
+		}
+		if !none(dst) || !has(dst2) {
+			return 8
+		}
+		if *filename != dst2+"/"+ctlName {
+			return 9
+		}
+	default:
+		if h.Copy(dst2) != nil {
+			return 10
+		}
+		if !has(src) || !has(dst) || !has(dst2) {
+			return 11
+		}
+		if *filename != dst2+"/"+ctlName {
+			return 12
+		}
+	}
+	return 0
+}
+
 // VerifC20Confine: whatever name the control file lists, nothing outside the control file's directory is read
 // into the destination, overwritten, moved or deleted.  A sentinel with the same base name lives outside.
 func VerifC20Confine(op, kind int, name string) int {
@@ -251,4 +359,5 @@ func VerifC20Confine(op, kind int, name string) int {
 func init() {
 	verifFuncs["VerifC20Op"] = VerifC20Op
 	verifFuncs["VerifC20Confine"] = VerifC20Confine
+	verifFuncs["VerifC20Seq"] = VerifC20Seq
 }
